@@ -16,7 +16,7 @@ for p in "$dir"/*.patch "$dir"/*/patch.diff; do
   res="MISSED  "
   if ./check build >/dev/null 2>&1; then
     for id in $ids; do
-      out=$(timeout 900 ./sim/target/release/nervus-sim check $id quick 2>&1); rc=$?
+      out=$(timeout 1500 ./check $id quick 2>&1); rc=$?
       if [ $rc -eq 1 ]; then res="DETECTED"; hit="$id: $(echo "$out" | grep -m1 'class=' | cut -c1-160)"; break; fi
       [ $rc -eq 2 ] && hit="$id: harness error: $(echo "$out" | grep -m1 HARNESS | cut -c1-120)"
     done
